@@ -757,6 +757,24 @@ def iter_next(ex, st, ref):
         ex.store(st, sub(ref, 2), i)
         ex.store(st, sub(ref, 3), j)
         return st, out
+    if k == "chain":
+        if f[2] == 0:
+            st, x = iter_next(ex, st, sub(ref, 0))
+            if x is not None:
+                return st, x
+            ex.store(st, sub(ref, 2), 1)
+        return iter_next(ex, st, sub(ref, 1))
+    if k == "copied":
+        st, x = iter_next(ex, st, sub(ref, 0))
+        if x is None:
+            return st, None
+        return st, deref_arg(ex, st, x)
+    if k == "take":
+        n = f[1]
+        if n <= 0:
+            return st, None
+        ex.store(st, sub(ref, 1), n - 1)
+        return iter_next(ex, st, sub(ref, 0))
     if k == "win2":
         if f[1] is None:
             items = []
@@ -955,7 +973,7 @@ def b_op_intersects(ex, st, a, m, c):
             if mm and int(mm.group(1)) in fr.locals:
                 k = fr.locals[int(mm.group(1))]
         x = ex.fresh_var("X", "B")
-        ex.record_intersects.append(dict(k=k, p=list(p.fields), q=list(q.fields), x=x, fn=fr.fn.name))
+        ex.record_intersects.append(dict(k=k, p=list(p.fields), q=list(q.fields), x=x, fn=fr.fn.name, pc=list(st.pc)))
         return x
     return T.uf("X", list(p.fields) + list(q.fields), "B")
 
@@ -1143,3 +1161,173 @@ def b_anyhow(ex, st, a, m, c):
 @builtin(r"^std::fmt::format$|^must_use::<String>$|^alloc::fmt::format$", "message formatting (opaque)")
 def b_format(ex, st, a, m, c):
     return Agg("str", [""])
+
+
+# ------------------------------------------------------------------------------- more std (added as seeded changes pulled them in)
+
+@builtin(r"Option::<.*>::take$", "Option::take")
+def b_opt_take(ex, st, a, m, c):
+    v = ex.load(st, a[0])
+    ex.store(st, a[0], mk_enum("Option", "None", []))
+    return v
+
+
+@builtin(r"Option::<.*>::replace$", "Option::replace")
+def b_opt_replace(ex, st, a, m, c):
+    v = ex.load(st, a[0])
+    ex.store(st, a[0], mk_enum("Option", "Some", [a[1]]))
+    return v
+
+
+@builtin(r"Option::<.*>::is_none$", "Option::is_none")
+def b_is_none(ex, st, a, m, c):
+    v = deref_arg(ex, st, a[0])
+    return T.bor(*[cnd for cnd, vn, f in v.alts if vn == "None"])
+
+
+@builtin(r"Option::<.*>::unwrap_or$", "Option::unwrap_or")
+def b_unwrap_or(ex, st, a, m, c):
+    from mirexec import merge_values
+    v = a[0]
+    cvs = [(cnd, f[0]) if vn == "Some" else (cnd, a[1]) for cnd, vn, f in v.alts]
+    return merge_values(cvs) if len(cvs) > 1 else cvs[0][1]
+
+
+@builtin(r"Option::<.*>::(as_ref|as_mut|copied|cloned)$", "Option::as_ref/copied/cloned")
+def b_opt_asref(ex, st, a, m, c):
+    v = a[0]
+    if m.group(1) in ("as_ref", "as_mut"):
+        ref = v
+        ov = ex.load(st, ref)
+        return Enum("Option", [(cnd, vn, [Ref(ref.depth, ref.local, ref.path + (("v", "Some"), 0))] if vn == "Some" else []) for cnd, vn, f in ov.alts])
+    return Enum("Option", [(cnd, vn, [deref_arg(ex, st, f[0])] if vn == "Some" else []) for cnd, vn, f in v.alts])
+
+
+@builtin(r"core::slice::<impl \[.*\]>::(first|last)$", "slice::first/last")
+def b_first_last(ex, st, a, m, c):
+    v = ex.load(st, a[0])
+    n = len(v.fields)
+    if n == 0:
+        return mk_enum("Option", "None", [])
+    i = 0 if m.group(1) == "first" else n - 1
+    return mk_enum("Option", "Some", [Ref(a[0].depth, a[0].local, a[0].path + (i,))])
+
+
+@builtin(r"core::slice::<impl \[.*\]>::(len|is_empty)$", "slice::len/is_empty")
+def b_slen(ex, st, a, m, c):
+    n = len(ex.load(st, a[0]).fields)
+    return n if m.group(1) == "len" else (n == 0)
+
+
+@builtin(r"^Vec::<.*>::(with_capacity)$", "Vec::with_capacity")
+def b_vcap(ex, st, a, m, c):
+    return Agg("vec", [])
+
+
+@builtin(r"^Vec::<.*>::is_empty$", "Vec::is_empty")
+def b_visempty(ex, st, a, m, c):
+    return len(deref_arg(ex, st, a[0]).fields) == 0
+
+
+@builtin(r"^Vec::<.*>::pop$", "Vec::pop")
+def b_vpop(ex, st, a, m, c):
+    v = ex.load(st, a[0])
+    if not v.fields:
+        return mk_enum("Option", "None", [])
+    ex.store(st, a[0], Agg(v.kind, list(v.fields[:-1])))
+    return mk_enum("Option", "Some", [v.fields[-1]])
+
+
+@builtin(r" as Iterator>::chain::<", "Iterator::chain")
+def b_chain(ex, st, a, m, c):
+    second = a[1]
+    if isinstance(second, Enum):   # Option<T> as IntoIterator
+        items = [f[0] for cnd, vn, f in second.alts if vn == "Some"]
+        if not second.concrete():
+            raise Unsupported("chain with a symbolic Option")
+        second = it("vecinto", Agg("vec", items), 0)
+    return it("chain", a[0], second, 0)
+
+
+@builtin(r" as Iterator>::(copied|cloned)$", "Iterator::copied/cloned")
+def b_copied(ex, st, a, m, c):
+    return it("copied", a[0])
+
+
+@builtin(r" as Iterator>::rev$", "Iterator::rev (materialises the items)")
+def b_rev(ex, st, a, m, c):
+    r = scratch_iter(ex, st, a[0])
+    out = []
+    while True:
+        st, x = iter_next(ex, st, r)
+        if x is None:
+            break
+        out.append(x)
+    drop_scratch(st, r)
+    return st, it("vecinto", Agg("vec", out[::-1]), 0)
+
+
+@builtin(r" as Iterator>::take$", "Iterator::take (concrete count)")
+def b_take(ex, st, a, m, c):
+    if T.is_t(a[1]):
+        raise Unsupported("take with symbolic count")
+    return it("take", a[0], a[1])
+
+
+@builtin(r" as Iterator>::count$", "Iterator::count")
+def b_count(ex, st, a, m, c):
+    r = scratch_iter(ex, st, a[0])
+    n = 0
+    while True:
+        st, x = iter_next(ex, st, r)
+        if x is None:
+            break
+        n += 1
+    drop_scratch(st, r)
+    return st, n
+
+
+@builtin(r" as Iterator>::last$", "Iterator::last")
+def b_last(ex, st, a, m, c):
+    r = scratch_iter(ex, st, a[0])
+    last = None
+    while True:
+        st, x = iter_next(ex, st, r)
+        if x is None:
+            break
+        last = x
+    drop_scratch(st, r)
+    return st, (mk_enum("Option", "None", []) if last is None else mk_enum("Option", "Some", [last]))
+
+
+@builtin(r" as Iterator>::all::<", "Iterator::all = conjunction (pure predicate)")
+def b_all(ex, st, a, m, c):
+    it_ref = a[0]
+    fslot = scratch_iter(ex, st, a[1])
+    res = True
+    while True:
+        st, x = iter_next(ex, st, it_ref)
+        if x is None:
+            break
+        st, r = call_callable(ex, st, fslot, ex.load(st, fslot), [x])
+        res = T.band(res, r)
+    drop_scratch(st, fslot)
+    return st, res
+
+
+@builtin(r" as Iterator>::sum::<(usize|u64|i64|i32|u32)>$", "Iterator::sum over integers")
+def b_isum(ex, st, a, m, c):
+    r = scratch_iter(ex, st, a[0])
+    acc = 0
+    while True:
+        st, x = iter_next(ex, st, r)
+        if x is None:
+            break
+        acc = T.ibin("iadd", acc, deref_arg(ex, st, x))
+    drop_scratch(st, r)
+    return st, acc
+
+
+@builtin(r"^<f64 as Clone>::clone$|^<&f64 as Clone>::clone$|^<usize as Clone>::clone$|^<bool as Clone>::clone$", "Clone of a scalar")
+def b_scalar_clone(ex, st, a, m, c):
+    return deref_arg(ex, st, a[0])
